@@ -44,10 +44,12 @@ VARIANTS = {
                ("resize_trait", "ba", "ResizableBytes::resize(&mut x, 2, 0);")],
     "clone": [("clone", "ba", "let y = x.clone(); drop(y);"),
               ("clone_trait", "ba", "let y = Clone::clone(&x); drop(y);")],
-    "lock": [("mlock", "ba", "let r = x.mlock(); drop(r);")],
-    "unlock": [("munlock", "ba", "let y = x.munlock().unwrap(); drop(y);")],
-    "ro": [("mprotect_readonly", "ba", "let y = x.mprotect_readonly().unwrap(); drop(y);")],
-    "rw": [("mprotect_readwrite", "ba", "let y = x.mprotect_readwrite().unwrap(); drop(y);")],
+    # after a permitted transition the result is USED the way its new type allows (a transition that only changes the
+    # type and not the pages would otherwise go unnoticed): {USE_SAME} = views of the unchanged protect mode
+    "lock": [("mlock", "ba", "let r = x.mlock(); if let Ok(mut y) = r { {USE_SAME} drop(y); }")],
+    "unlock": [("munlock", "ba", "let mut y = x.munlock().unwrap(); {USE_SAME} drop(y);")],
+    "ro": [("mprotect_readonly", "ba", "let y = x.mprotect_readonly().unwrap(); std::hint::black_box(y.as_slice()[0]); drop(y);")],
+    "rw": [("mprotect_readwrite", "ba", "let mut y = x.mprotect_readwrite().unwrap(); y.as_mut_slice()[0] = 9; std::hint::black_box(y.as_slice()[0]); drop(y);")],
     "na": [("mprotect_noaccess", "ba", "let y = x.mprotect_noaccess().unwrap(); drop(y);")],
     "useAfter": [("moved", "ba", "let y = x.mprotect_readonly(); let z = x.munlock(); drop(y); drop(z);"),
                  ("moved_lock", "ba", "let y = x.munlock(); std::hint::black_box(&x); drop(y);")],
@@ -76,7 +78,11 @@ def mk_expr(cont, pm, lm):
     return base
 
 
+USE_SAME = {"rw": "y.as_mut_slice()[0] = 9; std::hint::black_box(y.as_slice()[0]);", "ro": "std::hint::black_box(y.as_slice()[0]);", "na": ""}
+
+
 def program(cont, pm, lm, snippet):
+    snippet = snippet.replace("{USE_SAME}", USE_SAME[pm])
     return """#![allow(unused)]
 use dryoc::protected::*;
 use dryoc::types::*;
